@@ -17,7 +17,8 @@ FAMILY = {
             "slow_tuning_iff_slow_epoch", "no_history_unless_asked",
             "history_is_this_epochs_stored_chain_length", "history_is_this_epochs_stored_chain_content",
             "init_state_only_at_construction", "design_invariants", "tuning_times_are_the_end_times_of_the_adaptation_epochs", "no_action_matches",
-            "sample_all_epochs_does_not_raise"},
+            "sample_all_epochs_does_not_raise", "engine_unusable_after_a_chunk_mismatch",
+            "sample_next_raises_iff_no_epoch_left_or_duration_not_a_multiple_of_the_chunk"},
     "C08": {"results_read_when_idle", "one_stored_chain_per_started_epoch",
             "tracked_keys_respect_included_excluded", "stored_chain_is_thinned_per_iteration_states",
             "stored_chain_empty_iff_nothing_kept", "transition_infos_for_every_transition",
@@ -80,6 +81,10 @@ def handwritten(tier_quick: bool):
         # a thinned warm-up epoch whose duration is not a multiple of the thinning, followed by an epoch with the same thinning
         dict(ops=[("all",)], init_cfgs=[I, C(3, 5, 2), C(4, 4, 2), C(4, 6, 2)], K=2, needs_hist=(), chains=2, via_builder=True,
              store_kernel_states=True),
+        # an appended epoch whose duration is not a multiple of the chunk length: the call raises with the epoch started
+        # and every later sampling call raises as well
+        dict(ops=[("next",), ("next",), ("append", C(2, 3)), ("next",), ("next",), ("append", C(4, 2)), ("all",)],
+             init_cfgs=[I, C(1, 4)], K=2, needs_hist=(), chains=1, J=2),
         # first real epoch is posterior; J = 1; thinning that never keeps anything in a chunk
         dict(ops=[("append", I), ("append", C(4, 3, 3)), ("next",), ("next",), ("append", C(4, 2, 2)),
                   ("next",), ("append", C(4, 1)), ("all",)],
@@ -210,6 +215,12 @@ def nontrivial(t):
 
 
 def mc(chk: Check, invs, quick_maxlen=3, thorough_maxlen=4):
+    # durations that are not multiples of the chunk length: the engine refuses them with the epoch started and is
+    # unusable afterwards (fail-stop); the invariants hold on that path too
+    cfg = MC_CFG.format(flag="TRUE", ks="{1, 2}", js="{2}", durs="{2, 3}", maxlen=3, nqs="{0}")
+    chk.mc("MC_GooseEngine.tla", cfg + "".join(f"INVARIANT {i}\n" for i in invs), tag="engine-chunk-mismatch",
+           expect_actions=["ApiSampleStuck", "IChunkMismatch", "ApiSampleNext", "IKStart"], timeout=1500,
+           what="J = 2 with durations {2, 3}: the refusal path of _sample_for_duration")
     if chk.quick:
         cfg = MC_CFG.format(flag="TRUE", ks="{1, 2}", js="{1, 2}", durs="{2, 4}", maxlen=quick_maxlen, nqs="{1}")
         chk.mc("MC_GooseEngine.tla", cfg + "".join(f"INVARIANT {i}\n" for i in invs), tag="engine",
